@@ -734,6 +734,13 @@ pub struct QRec {
 pub const QUIESCE_IDLE_STEPS: u64 = 3;
 
 static QUIESCE_EXPIRED: AtomicU32 = AtomicU32::new(0);
+static LEAKED_RECEIVERS: AtomicU32 = AtomicU32::new(0);
+
+/// True once receiver threads had to be left behind (they never exited): running more
+/// histories would only pile up threads, so the lane stops and says so.
+pub fn lane_poisoned() -> bool {
+    LEAKED_RECEIVERS.load(SeqCst) >= if cfg!(miri) { 1 } else { 3 }
+}
 
 pub const ROLE_MAIN: u8 = 0;
 pub const ROLE_RECV: u8 = 1;
@@ -1043,7 +1050,7 @@ fn hook(p: Point) {
             if role == ROLE_RECV && p == Point::RecvBeforeIdleWait {
                 t.sc.idle_steps.fetch_add(1, SeqCst);
             }
-            if matches!(p, Point::SendLock | Point::TrySendLock) {
+            if matches!(p, Point::SendLock | Point::TrySendLock | Point::WhenFlushedLock) {
                 let w = LOCK_AIM.with(|l| l.replace(u8::MAX));
                 if w != u8::MAX && t.sc.delays {
                     lock_aim = Some((t.sc.clone(), w));
@@ -1119,7 +1126,7 @@ fn hook(p: Point) {
         if nested && p == Point::RecvSwapLock {
             let _ = NESTED_SWAPS.try_with(|n| n.set(n.get() + 1));
         }
-    } else if matches!(p, Point::SendLock | Point::TrySendLock) {
+    } else if matches!(p, Point::SendLock | Point::TrySendLock | Point::WhenFlushedLock) {
         // sequential mode: let the receiver run while this sender sits before its lock
         let n = LOCK_POLLS.try_with(|l| l.replace(0)).unwrap_or(0);
         if n > 0 {
@@ -1785,7 +1792,11 @@ pub fn run_concurrent(plan: &Plan, delays: bool) -> History {
             }
             let flush = if t.flush {
                 ROLE.with(|r| r.set(ROLE_FLUSHER0 + tail_flusher));
+                if let (true, TailAim::AtLock(w)) = (delays, t.aim) {
+                    LOCK_AIM.with(|l| l.set(w));
+                }
                 pending_f.push(do_flush(&sender, uid, tail_flusher, FOp::Callback, &mut rt_slot));
+                LOCK_AIM.with(|l| l.set(u8::MAX));
                 Some(pending_f.len() - 1)
             } else {
                 None
@@ -1830,12 +1841,45 @@ pub fn run_concurrent(plan: &Plan, delays: bool) -> History {
     // close the channel and wait for the receiver
     let sender_dropped = stamp();
     drop(sender);
-    let (recv_exit, recv_dropped_early) = match handle {
-        RecvHandle::Spawned(h) => {
-            h.join().expect("receiver thread");
-            (Some(stamp()), None)
+    // a receiver that never notices the closed channel must not hang the lane: wait with a
+    // (generous, wall-clock) watchdog, then leave the thread behind and call the history stuck
+    let mut stuck = None;
+    let finished = {
+        let is_finished = || match &handle {
+            RecvHandle::Spawned(h) => h.is_finished(),
+            RecvHandle::Exec(h) => h.is_finished(),
+        };
+        let t0 = std::time::Instant::now();
+        let watchdog = Duration::from_secs(if cfg!(miri) { 60 } else { 10 });
+        let mut i = 0u32;
+        loop {
+            if is_finished() {
+                break true;
+            }
+            i += 1;
+            if i < 200 && !cfg!(miri) {
+                thread::yield_now();
+            } else {
+                thread::sleep(Duration::from_micros(if cfg!(miri) { 200 } else { 100 }));
+                if t0.elapsed() > watchdog {
+                    break false;
+                }
+            }
         }
-        RecvHandle::Exec(h) => h.join().expect("executor thread"),
+    };
+    let (recv_exit, recv_dropped_early) = if finished {
+        match handle {
+            RecvHandle::Spawned(h) => {
+                h.join().expect("receiver thread");
+                (Some(stamp()), None)
+            }
+            RecvHandle::Exec(h) => h.join().expect("executor thread"),
+        }
+    } else {
+        LEAKED_RECEIVERS.fetch_add(1, SeqCst);
+        stuck = Some("the receiver thread did not exit within the watchdog after the sender was dropped; it was left behind".to_string());
+        drop(handle);
+        (None, None)
     };
     // callbacks can fire until the receiver is gone: read the slots only now
     for (mut rec, slot) in pending_f {
@@ -1875,7 +1919,7 @@ pub fn run_concurrent(plan: &Plan, delays: bool) -> History {
         model_problems: Vec::new(),
         snapshots_compared: 0,
         injected_ops: 0,
-        stuck: None,
+        stuck,
         model: None,
         panics: take_panics(uid),
         quiesce,
@@ -1968,6 +2012,24 @@ impl Seq {
         }
     }
 
+    /// Let the receiver run while the next operation sits right before its lock acquisition
+    /// (only has an effect for top-level operations: the receiver future is parked then).
+    fn arm_lock_polls(&mut self) {
+        let lp = std::mem::take(&mut self.lock_polls);
+        LOCK_POLLS.with(|l| l.set(lp));
+        NESTED_SWAPS.with(|n| n.set(0));
+    }
+
+    /// The receiver swapped during such nested polls, i.e. before the operation took the lock.
+    fn apply_nested_swaps(&mut self) {
+        LOCK_POLLS.with(|l| l.set(0));
+        let nested_swaps = NESTED_SWAPS.with(|n| n.replace(0));
+        if nested_swaps > 0 && !self.m_pending.is_empty() {
+            let taken = std::mem::take(&mut self.m_pending);
+            self.m_end.takes.push(taken);
+        }
+    }
+
     fn do_next_op(&mut self) -> bool {
         let op = match self.ops.pop_front() {
             Some(op) => op,
@@ -1988,18 +2050,10 @@ impl Seq {
                 self.counters[who] += 1;
                 // let the receiver run while this sender sits right before its lock acquisition
                 // (only has an effect for top-level operations: the receiver future is parked)
-                let lp = std::mem::take(&mut self.lock_polls);
-                LOCK_POLLS.with(|l| l.set(lp));
-                NESTED_SWAPS.with(|n| n.set(0));
+                self.arm_lock_polls();
                 let rec = do_send(&sender, id, sop, &mut rt_slot);
-                LOCK_POLLS.with(|l| l.set(0));
-                let nested_swaps = NESTED_SWAPS.with(|n| n.replace(0));
+                self.apply_nested_swaps();
                 label = format!("{:?} of {}.{}", rec.kind, id.who, id.n);
-                if nested_swaps > 0 && !self.m_pending.is_empty() {
-                    // the receiver swapped before this operation took the lock
-                    let taken = std::mem::take(&mut self.m_pending);
-                    self.m_end.takes.push(taken);
-                }
                 if self.compare {
                     match rec.kind {
                         SendKind::Send => {
@@ -2037,7 +2091,10 @@ impl Seq {
             SeqKind::F(fop) => {
                 let who = op.role - ROLE_FLUSHER0;
                 label = format!("{:?}", fop);
-                self.flushes.push(do_flush(&sender, self.uid, who, fop, &mut rt_slot));
+                self.arm_lock_polls();
+                let rec = do_flush(&sender, self.uid, who, fop, &mut rt_slot);
+                self.apply_nested_swaps();
+                self.flushes.push(rec);
             }
             SeqKind::W => {
                 label = "when_empty".to_string();
@@ -2216,7 +2273,7 @@ pub fn run_sequential(plan: &Plan) -> History {
             });
             let flush = if t.flush {
                 with_seq(|s| s.ops.push_back(SeqOp { role: flush_role, kind: SeqKind::F(FOp::Callback) }));
-                top_level_op(&mut fut, 0, &mut recv_exit);
+                top_level_op(&mut fut, lp, &mut recv_exit);
                 Some(with_seq(|s| s.flushes.len() - 1))
             } else {
                 None
@@ -2515,7 +2572,7 @@ pub fn check_c06(h: &History, budget: Option<u32>, r: &mut Report) -> Seen {
         exhausted: att.exhausted_chains > 0,
     };
     if let Some(s) = &h.stuck {
-        r.inconclusive(format!("C06 sequential history seed={} case={}: {}", h.plan.seed, h.plan.case, s));
+        r.inconclusive(format!("C06 {} history seed={} case={}: {}", h.plan.shape(), h.plan.seed, h.plan.case, s));
     }
     note_expired_quiescence(h, r, "C06");
     let mut viol = |sig: &str, what: String, ids: &[Id], extra: Json| {
